@@ -29,10 +29,21 @@ def items(tier):
         for mode in ("vjp", "jvp"):
             if mode + " " + c.key not in seen:
                 out.append((mode, c))
-    if tier == "thorough" or os.environ.get("VF_C09_GRID"):
-        for c in grid.complexified_grid(tier):
-            out.append(("vjp", c))
-            out.append(("jvp", c))
+    # the real grid's shape / reduction / contraction families on COMPLEX arguments: all of them in the thorough tier, in
+    # the quick tier every primitive's first two configurations plus every fifth one
+    cg = grid.complexified_grid(tier)
+    if tier != "thorough" and not os.environ.get("VF_C09_GRID"):
+        per = {}
+        keep = []
+        for i, c in enumerate(cg):
+            n = per.get(c.prim, 0)
+            per[c.prim] = n + 1
+            if n < 2 or i % 5 == 0 or c.prim in ("diagonal", "make_diagonal"):
+                keep.append(c)
+        cg = keep
+    for c in cg:
+        out.append(("vjp", c))
+        out.append(("jvp", c))
     for case in checks_a.holo_cases():
         out.append(("holo", case))
     only = os.environ.get("VF_ONLY")
